@@ -7,7 +7,8 @@ from ..core import Anchor
 CONFIGS_QUICK = ["std_hash", "std_nohash", "nostd_hash", "nostd_nohash"]
 CONFIGS_THOROUGH = ["std_hash", "std_nohash", "nostd_hash", "nostd_nohash"]
 TECHNIQUE = ("cross-configuration comparison of type-checked HIR bodies (four {std,hash} builds) modulo an io alias map, "
-             "with a reviewed set of feature-dependent bodies whose differences must be the stated ones (CFGDIFF)")
+             "with a reviewed set of feature-dependent bodies whose differences must be the stated ones (CFGDIFF); the "
+             "no_std I/O layer checked clause by clause against the std::io contract on canonical/provenance forms")
 EXPLANATION = (
     "Decided: facts are extracted for all four combinations of {std, hash}. After mapping std::io / "
     "ruzstd::io_nostd / ruzstd::io_std paths to one alias and removing the vprintln! statements (guarded by the "
@@ -18,8 +19,13 @@ EXPLANATION = (
     "removing the statements that touch the hasher from the hash build gives the no-hash body (decoder and "
     "compressor), the content_checksum flag literal is true exactly in hash builds and the 4-byte trailer write "
     "exists exactly then; StreamingDecoder::read differs only in how the error value is wrapped. "
-    "Not decided: that the hand-written no_std read_exact / Take::read / write_all behave like std's for every "
-    "reader (loop semantics; their exits are inventoried by C03).")
+    "The hand-written no_std I/O layer (which has no local std counterpart to diff against) is compared clause by "
+    "clause with the documented std::io contract the generic code relies on: read_exact / write_all loop exactly "
+    "while the rest is non-empty, advance by the count each call reported, retry only Interrupted, return other "
+    "errors, and report UnexpectedEof / WriteAllEof on zero progress; Take::read reads at most min(limit, len), "
+    "shrinks the limit by the count the inner reader returned and returns that count; the slice / Vec "
+    "implementations copy and advance by min(len, len); forwarders forward. "
+    "Not decided: behaviour of foreign Read/Write implementations handed in by a caller.")
 ASSUMPTIONS = ["std::io::{Read,Write,Error} behave as documented", "VERBOSE stays false (checked as a const value)"]
 
 IO_PREFIXES = ("std::io::error::", "std::io::", "ruzstd::io_nostd::", "ruzstd::io_std::", "ruzstd::io::")
@@ -300,7 +306,12 @@ def digest(tokens):
 
 
 def run(ctx):
-    # runs once (on the first configuration); it needs all four
+    # the no_std I/O layer against the std::io contract (in each configuration that compiles it)
+    if ctx.cfg.startswith("nostd"):
+        from . import c18_io
+        from .. import hq as _hq
+        c18_io.run(ctx)
+    # the cross-configuration comparison runs once (on the first configuration); it needs all four
     if ctx.cfg != CONFIGS_QUICK[0]:
         return
     cfgs = CONFIGS_QUICK
